@@ -174,6 +174,9 @@ Case == LET d == Declared(tpl, fpos) IN
         [seq |-> tpl, nl |-> nlk, route |-> route, opt |-> opt, fpos |-> fpos, line |-> d.line, cols |-> SetToSeq(d.cols),
          bline |-> LineOf(tpl, fpos) + LexedHead(opt), bcol |-> ColOf(tpl, fpos), frames |-> d.frames,
          fline |-> LineOf(tpl, fpos) + LexedHead(opt) + Cat[tpl[fpos]].f.foff,     \* physical line of the planted token
+         \* where the planted line stands in the whole text: total number of lines, and whether the text ends with a
+         \* line terminator (first / last line, single-line template, last line without terminator are layout dimensions)
+         nlines |-> LexedHead(opt) + 1 + SumNL(tpl, Len(tpl)), endnl |-> AtLineStart(tpl),
          mline |-> report.line, mcol |-> report.col]
 Emit == /\ phase = "done" /\ PrintT(ToJson(Case)) /\ phase' = "end"
         /\ UNCHANGED <<tpl, nlk, fpos, k, lineno, cb, report, route, opt>>
